@@ -110,6 +110,8 @@ type Term struct {
 	name string
 	p1   int
 	p2   int
+	ub   *big.Int // known upper bound of a non-negative Int term (nil: unknown / may be negative)
+	ubOk bool
 }
 
 func (t *Term) IsConst() bool { return t.op == OConst }
@@ -133,6 +135,7 @@ type ufSig struct {
 }
 
 type TermTable struct {
+	rangeVars map[*Term]int // Int variables known to lie in [0, 2^bits)
 	tab   map[termKey]*Term
 	next  int
 	ufs   map[string]*ufSig
@@ -142,7 +145,7 @@ type TermTable struct {
 }
 
 func NewTermTable() *TermTable {
-	tt := &TermTable{tab: map[termKey]*Term{}, ufs: map[string]*ufSig{}, vars: map[string]*Term{}}
+	tt := &TermTable{tab: map[termKey]*Term{}, ufs: map[string]*ufSig{}, vars: map[string]*Term{}, rangeVars: map[*Term]int{}}
 	tt.True = tt.mk(&Term{op: OConst, sort: BoolSort, cv: 1})
 	tt.False = tt.mk(&Term{op: OConst, sort: BoolSort, cv: 0})
 	return tt
@@ -826,6 +829,13 @@ func (tt *TermTable) Concat(hi, lo *Term) *Term {
 	if hi.op == OExtract && lo.op == OExtract && hi.args[0] == lo.args[0] && hi.p2 == lo.p1+1 {
 		return tt.Extract(hi.p1, lo.p2, hi.args[0])
 	}
+	// whole term followed by ... no; left-nested concat whose last piece merges with lo
+	if hi.op == OConcat {
+		l := hi.args[1]
+		if (l.op == OExtract && lo.op == OExtract && l.args[0] == lo.args[0] && l.p2 == lo.p1+1) || bothConst(l, lo) {
+			return tt.Concat(hi.args[0], tt.Concat(l, lo))
+		}
+	}
 	return tt.bin(OConcat, BVSort(w), hi, lo)
 }
 
@@ -1085,20 +1095,159 @@ nofold:
 		if isC(b, 1) {
 			return a
 		}
+		if b.op == OConst && b.big.Sign() > 0 {
+			if u := tt.ubound(a); u != nil && u.Cmp(b.big) < 0 {
+				return tt.IntI(0)
+			}
+		}
 	case OIMod:
 		// (mod (mod x m) m) = (mod x m)
 		if a.op == OIMod && a.args[1] == b {
 			return a
 		}
-		// bv2nat(x) mod 2^w with w >= width(x)
-		if a.op == OBV2Nat && b.op == OConst && b.big.BitLen() > a.args[0].sort.W {
-			return a
+		// value already below the (positive constant) modulus
+		if b.op == OConst && b.big.Sign() > 0 {
+			if u := tt.ubound(a); u != nil && u.Cmp(b.big) < 0 {
+				return a
+			}
+		}
+	}
+	if op == OIMul && (a.op == OIAdd || b.op == OIAdd) {
+		if r := tt.distribute(a, b); r != nil {
+			return r
 		}
 	}
 	if (op == OIAdd || op == OIMul) && (b.op == OConst || (a.op != OConst && a.id > b.id)) {
 		a, b = b, a
 	}
 	return tt.bin(op, IntSort, a, b)
+}
+
+// linear form: sum of coef*atom + konst
+type linTerm struct {
+	atom *Term
+	coef *big.Int
+}
+
+func (tt *TermTable) linearize(t *Term, scale *big.Int, out *[]linTerm, konst *big.Int, depth int) {
+	switch {
+	case t.op == OConst:
+		konst.Add(konst, new(big.Int).Mul(scale, t.big))
+	case t.op == OIAdd && depth < 64:
+		tt.linearize(t.args[0], scale, out, konst, depth+1)
+		tt.linearize(t.args[1], scale, out, konst, depth+1)
+	case t.op == OIMul && t.args[0].op == OConst && depth < 64:
+		tt.linearize(t.args[1], new(big.Int).Mul(scale, t.args[0].big), out, konst, depth+1)
+	case t.op == OIMul && t.args[1].op == OConst && depth < 64:
+		tt.linearize(t.args[0], new(big.Int).Mul(scale, t.args[1].big), out, konst, depth+1)
+	default:
+		*out = append(*out, linTerm{t, scale})
+	}
+}
+
+// distribute expands (sum)*(sum) into a sum of atom products (keeps the queries of limb
+// arithmetic linear in the partial products).
+func (tt *TermTable) distribute(a, b *Term) *Term {
+	var la, lb []linTerm
+	ka, kb := new(big.Int), new(big.Int)
+	tt.linearize(a, big.NewInt(1), &la, ka, 0)
+	tt.linearize(b, big.NewInt(1), &lb, kb, 0)
+	if len(la) > 8 || len(lb) > 8 || (len(la) <= 1 && len(lb) <= 1) {
+		return nil
+	}
+	if ka.Sign() != 0 {
+		la = append(la, linTerm{nil, ka})
+	}
+	if kb.Sign() != 0 {
+		lb = append(lb, linTerm{nil, kb})
+	}
+	r := tt.IntI(0)
+	for _, x := range la {
+		for _, y := range lb {
+			c := tt.Int(new(big.Int).Mul(x.coef, y.coef))
+			var p *Term
+			switch {
+			case x.atom == nil && y.atom == nil:
+				p = c
+			case x.atom == nil:
+				p = tt.scaleAtom(c, y.atom)
+			case y.atom == nil:
+				p = tt.scaleAtom(c, x.atom)
+			default:
+				u, v := x.atom, y.atom
+				if u.id > v.id {
+					u, v = v, u
+				}
+				p = tt.scaleAtom(c, tt.bin(OIMul, IntSort, u, v))
+			}
+			r = tt.IBin(OIAdd, r, p)
+		}
+	}
+	return r
+}
+
+func (tt *TermTable) scaleAtom(c, atom *Term) *Term {
+	if c.big.Sign() == 0 {
+		return tt.IntI(0)
+	}
+	if c.big.IsInt64() && c.big.Int64() == 1 {
+		return atom
+	}
+	return tt.bin(OIMul, IntSort, c, atom)
+}
+
+// ubound returns an upper bound of t if t is known to be non-negative, else nil.
+func (tt *TermTable) ubound(t *Term) *big.Int {
+	if t.ubOk {
+		return t.ub
+	}
+	var r *big.Int
+	switch t.op {
+	case OConst:
+		if t.big.Sign() >= 0 {
+			r = t.big
+		}
+	case OVar:
+		if b, ok := tt.rangeVars[t]; ok {
+			r = new(big.Int).Sub(pow2(b), big.NewInt(1))
+		}
+	case OBV2Nat:
+		r = new(big.Int).Sub(pow2(t.args[0].sort.W), big.NewInt(1))
+	case OIAdd:
+		a, b := tt.ubound(t.args[0]), tt.ubound(t.args[1])
+		if a != nil && b != nil {
+			r = new(big.Int).Add(a, b)
+		}
+	case OIMul:
+		a, b := tt.ubound(t.args[0]), tt.ubound(t.args[1])
+		if a != nil && b != nil {
+			r = new(big.Int).Mul(a, b)
+		}
+	case OIDiv:
+		a := tt.ubound(t.args[0])
+		if a != nil && t.args[1].op == OConst && t.args[1].big.Sign() > 0 {
+			r = new(big.Int).Div(a, t.args[1].big)
+		}
+	case OIMod:
+		if t.args[1].op == OConst && t.args[1].big.Sign() > 0 {
+			r = new(big.Int).Sub(t.args[1].big, big.NewInt(1))
+			if a := tt.ubound(t.args[0]); a != nil && a.Cmp(r) < 0 {
+				r = a
+			}
+		}
+	case OIAbs:
+		r = tt.ubound(t.args[0])
+	case OIte:
+		a, b := tt.ubound(t.args[1]), tt.ubound(t.args[2])
+		if a != nil && b != nil {
+			r = a
+			if b.Cmp(a) > 0 {
+				r = b
+			}
+		}
+	}
+	t.ub, t.ubOk = r, true
+	return r
 }
 
 func (tt *TermTable) INeg(a *Term) *Term {
@@ -1321,6 +1470,14 @@ func (tt *TermTable) Eval(t *Term, m Model, cache map[int]*Term) (*Term, bool) {
 			r = tt.Int(v)
 		}
 	case OApp:
+		if t.name == "EXP256" {
+			b, ok1 := tt.Eval(t.args[0], m, cache)
+			e, ok2 := tt.Eval(t.args[1], m, cache)
+			if ok1 && ok2 {
+				r = tt.BVBig(256, new(big.Int).Exp(b.ConstBig(), e.ConstBig(), new(big.Int).Lsh(big.NewInt(1), 256)))
+				break
+			}
+		}
 		key := "app:" + t.name
 		for _, a := range t.args {
 			av, ok := tt.Eval(a, m, cache)
